@@ -34,3 +34,27 @@ package conversion
 //@     invariant fresh(rules) && NextOK(c, rules, fromVer) && k == fromVer && has(c.BaseFromToIndex, k)
 //@   loop 3
 //@     invariant fresh(rules) && NextOK(c, rules, fromVer) && same(k, fromVer) && has(c.BaseFromToIndex, k)
+
+// C15: the search only adds entries to the paths cache; it never writes into the backing array
+// of a path that is already cached (two extensions of one cached path must not share storage).
+//@ func (ChainStorage).FindConversionChain
+//@   prop C15
+//@   opt theory=strings
+//@   requires has(cs.Chains, crdName) ==> cs.Chains[crdName] != nil && cs.Chains[crdName].PathsCache != nil
+//@   modifies all(mapof(cs.Chains[crdName].PathsCache))
+//@   loop 1
+//@     invariant true
+//@   loop 2
+//@     invariant true
+//@   loop 3
+//@     invariant true
+//@   loop 4
+//@     invariant true
+
+//@ trusted func (Chain).HasTargetVersion
+//@   modifies nothing
+//@ trusted func (Chain).SearchPathForRule
+//@   modifies nothing
+//@ trusted func (Chain).RulesWithSimilarFromVersion
+//@   modifies nothing
+//@   ensures fresh(result)
